@@ -172,6 +172,8 @@ def run(ctx):
                 sig = SIG_BY_MODE[c["mode"]]          # a 78 site used a cache entry that is not its own
             elif cause == 2:
                 sig = "c05:native-site-rebound"       # a 104 site did not follow the rebinding
+            elif cause == 4:
+                sig = "c05:stale-entry-after-rebinding:" + c["mode"]   # own slot, own outdated entry: invalidation missing
             else:
                 sig = f"c05:wrong-callee-cause-{cause}:" + c["mode"]
             rep["cause"] = cause
